@@ -435,6 +435,11 @@ def lean_obligations(ctx, prop, theorems, allow_axioms=(), allow_bv_decide_in=()
     theorems: list of fully-qualified names expected in the audit output.
     returns True iff every obligation is discharged."""
     mod = "KalignModel.Props." + prop
+    audit_src = "import %s\n" % mod + "".join("#print axioms %s\n" % t for t in theorems)
+    apath = os.path.join(LEAN, "KalignModel", "Audit", prop + ".lean")
+    if not os.path.exists(apath) or open(apath).read() != audit_src:
+        os.makedirs(os.path.dirname(apath), exist_ok=True)
+        open(apath, "w").write(audit_src)
     ok, log = lake_build([mod, "kmodel"])
     ctx.notes.append("lake build %s kmodel: %s" % (mod, "ok" if ok else "FAILED"))
     all_ok = True
